@@ -3,7 +3,7 @@
    names states of the machine. PIc_ok discharges every field of plan_inv_ok. *)
 From Coq Require Import List Arith Bool NArith Lia.
 From FFSM2 Require Import Model.TaskList Model.BitArray Model.Plan Model.Machine
-                          Proofs.PlanProofs Proofs.MachineFrame.
+                          Proofs.BitArrayProofs Proofs.PlanProofs Proofs.MachineFrame.
 Import ListNotations.
 
 Arguments INVALID : simpl never.
@@ -71,8 +71,11 @@ Qed.
 Theorem PIc_ok : 1 <= cap <= 255 -> plan_inv_ok P cfg (PIc P cfg).
 Proof.
   intro Hc. constructor.
-  - (* pio_succ *) intros d b H. exact (PIc_ext d (pd_with_succ P d b) eq_refl eq_refl H).
-  - (* pio_fail *) intros d b H. exact (PIc_ext d (pd_with_fail P d b) eq_refl eq_refl H).
+  - (* pio_succ_set *) intros d i H. exact (PIc_ext d (pd_with_succ P d _) eq_refl eq_refl H).
+  - (* pio_succ_clear *) intros d i H. exact (PIc_ext d (pd_with_succ P d _) eq_refl eq_refl H).
+  - (* pio_succ_and *) intros d tc H _. exact (PIc_ext d (pd_with_succ P d _) eq_refl eq_refl H).
+  - (* pio_fail_set *) intros d i H. exact (PIc_ext d (pd_with_fail P d _) eq_refl eq_refl H).
+  - (* pio_fail_clear *) intros d i H. exact (PIc_ext d (pd_with_fail P d _) eq_refl eq_refl H).
   - (* pio_statuses *) intros d h s H. exact (PIc_ext d (pd_with_statuses P d h s) eq_refl eq_refl H).
   - (* pio_append *)
     intros d o dst H Ho Hd. destruct (PIc_elim d H) as (order & HI & F).
@@ -124,6 +127,105 @@ Proof.
   - (* pio_indices_bits *)
     intros d b. apply plan_indices_ext. reflexivity.
 Qed.
+
+(* ---- the same invariant with the two report bit arrays well formed (ceil(n/8) bytes each): PIw ---- *)
+Local Notation nN := (N.of_nat n).
+Hypothesis Hn1 : (1 <= nN)%N.
+Definition wfb (b : ba) : Prop := BitArrayProofs.wf nN b.
+Definition PIw (d : plan_data P) : Prop := PIc P cfg d /\ wfb (pd_succ d) /\ wfb (pd_fail d).
+
+Lemma tcmask_wf tc : tcmask cfg tc -> wfb tc.
+Proof.
+  induction 1 as [|b i _ IH].
+  - unfold wfb. apply (set_all_wf _ Hn1). apply (init_wf _ Hn1).
+  - apply (clear_wf _ Hn1). exact IH.
+Qed.
+
+Lemma wfb_length b o : wfb b -> wfb o -> length b = length o.
+Proof. intros [H1 _] [H2 _]. apply Nat2N.inj. rewrite H1, H2. reflexivity. Qed.
+
+Lemma clear_bits_wf k b : wfb b -> wfb (clear_bits k b).
+Proof. intro H. induction k as [|k IH]; cbn [clear_bits]; [exact H|]. apply (clear_wf _ Hn1). exact IH. Qed.
+
+(* the plan's structural operations leave the report bits alone *)
+Lemma pd_link_bits d idx : pd_succ (fst (pd_link P d idx)) = pd_succ d /\ pd_fail (fst (pd_link P d idx)) = pd_fail d.
+Proof. unfold pd_link. destruct (idx =? INVALID); split; reflexivity. Qed.
+
+Lemma plan_append_bits d o dst :
+  pd_succ (fst (plan_append P cap d o dst)) = pd_succ d /\ pd_fail (fst (plan_append P cap d o dst)) = pd_fail d.
+Proof.
+  unfold plan_append. destruct (_ <? cap); [|split; reflexivity].
+  destruct (emplace P cap _ o dst None) as [t' idx]. exact (pd_link_bits (pd_with_tasks P (pd_with_exists P d true) t') idx).
+Qed.
+
+Lemma plan_append_with_bits d o dst p :
+  pd_succ (fst (plan_append_with P cap d o dst p)) = pd_succ d /\ pd_fail (fst (plan_append_with P cap d o dst p)) = pd_fail d.
+Proof.
+  unfold plan_append_with. destruct (emplace P cap _ o dst (Some p)) as [t' idx]. exact (pd_link_bits (pd_with_tasks P (pd_with_exists P d true) t') idx).
+Qed.
+
+Lemma plan_remove_bits d idx : pd_succ (plan_remove P cap d idx) = pd_succ d /\ pd_fail (plan_remove P cap d idx) = pd_fail d.
+Proof. split; reflexivity. Qed.
+
+Lemma clear_loop_bits : forall fuel d idx,
+  pd_succ (clear_loop P cap fuel d idx) = pd_succ d /\ pd_fail (clear_loop P cap fuel d idx) = pd_fail d.
+Proof.
+  induction fuel as [|f IH]; intros d idx; cbn [clear_loop]; [split; reflexivity|].
+  destruct (idx =? INVALID); [split; reflexivity|].
+  exact (IH (plan_remove P cap d idx) _).
+Qed.
+
+Lemma plan_clear_tasks_bits d :
+  pd_succ (plan_clear_tasks P cap d) = pd_succ d /\ pd_fail (plan_clear_tasks P cap d) = pd_fail d.
+Proof.
+  unfold plan_clear_tasks. destruct (first (pd_pl d) <? cap); [|split; reflexivity].
+  cbn [pd_with_pl pd_succ pd_fail]. exact (clear_loop_bits (S cap) d (first (pd_pl d))).
+Qed.
+
+Lemma remove_at_loop_bits : forall fuel d curr next k seen,
+  pd_succ (fst (remove_at_loop P cap fuel d curr next k seen)) = pd_succ d /\
+  pd_fail (fst (remove_at_loop P cap fuel d curr next k seen)) = pd_fail d.
+Proof.
+  induction fuel as [|f IH]; intros d curr next k seen; cbn [remove_at_loop]; [split; reflexivity|].
+  destruct (curr <? cap); [|split; reflexivity].
+  match goal with |- context [remove_at_loop P cap f ?d1 _ _ _ _] => destruct (IH d1 next (it_next P cap d1 next)
+      (match k with Some (S j) => Some j | _ => None end) (seen ++ [task_at P d curr])) as [A B] end.
+  rewrite A, B. destruct (match k with Some 0 => true | _ => false end); split; reflexivity.
+Qed.
+
+Theorem PIw_ok : 1 <= cap <= 255 -> plan_inv_ok P cfg PIw.
+Proof.
+  intro Hc. pose proof (PIc_ok Hc) as K. constructor.
+  - intros d i (H & Ws & Wf). split; [exact (pio_succ_set _ _ _ K d i H)|]. split; [apply (set_wf _ Hn1); exact Ws|exact Wf].
+  - intros d i (H & Ws & Wf). split; [exact (pio_succ_clear _ _ _ K d i H)|]. split; [apply (clear_wf _ Hn1); exact Ws|exact Wf].
+  - intros d tc (H & Ws & Wf) Htc. split; [exact (pio_succ_and _ _ _ K d tc H Htc)|]. split; [|exact Wf].
+    cbn [pd_with_succ pd_succ]. apply (and_assign_wf _ Hn1); [exact Ws|]. apply wfb_length; [exact Ws|apply tcmask_wf; exact Htc].
+  - intros d i (H & Ws & Wf). split; [exact (pio_fail_set _ _ _ K d i H)|]. split; [exact Ws|apply (set_wf _ Hn1); exact Wf].
+  - intros d i (H & Ws & Wf). split; [exact (pio_fail_clear _ _ _ K d i H)|]. split; [exact Ws|apply (clear_wf _ Hn1); exact Wf].
+  - intros d h s (H & Ws & Wf). split; [exact (pio_statuses _ _ _ K d h s H)|]. split; assumption.
+  - intros d o dst (H & Ws & Wf) Ho Hd. split; [exact (pio_append _ _ _ K d o dst H Ho Hd)|].
+    destruct (plan_append_bits d o dst) as [A B]. rewrite A, B. split; assumption.
+  - intros d o dst p (H & Ws & Wf) Ho Hd. split; [exact (pio_append_with _ _ _ K d o dst p H Ho Hd)|].
+    destruct (plan_append_with_bits d o dst p) as [A B]. rewrite A, B. split; assumption.
+  - intros d (H & Ws & Wf). split; [exact (pio_clear _ _ _ K d H)|].
+    unfold plan_clear. cbn [pd_with_fail pd_with_succ pd_succ pd_fail].
+    destruct (plan_clear_tasks_bits d) as [A B]. rewrite A, B. split; apply clear_bits_wf; assumption.
+  - intros d k (H & Ws & Wf). split; [exact (pio_remove_at _ _ _ K d k H)|].
+    unfold plan_remove_at. destruct (remove_at_loop_bits (S cap) d (first (pd_pl d)) (it_next P cap d (first (pd_pl d))) (Some k) []) as [A B].
+    rewrite A, B. split; assumption.
+  - intros d (H & Ws & Wf). split; [exact (pio_pd_clear _ _ _ K d H)|].
+    cbn [pd_clear pd_succ pd_fail]. split; apply (clear_all_wf _ Hn1); assumption.
+  - split; [exact (pio_init _ _ _ K)|]. cbn [pd_init pd_succ pd_fail]. split; apply (init_wf _ Hn1).
+  - intros d i (H & _) Hin. exact (pio_task _ _ _ K d i H Hin).
+  - intros d l1 x l2 (H & _) E. exact (pio_next _ _ _ K d l1 x l2 H E).
+  - intros d l1 x l2 (H & Ws & Wf) E. destruct (pio_remove _ _ _ K d l1 x l2 H E) as [H' E'].
+    split; [|exact E']. split; [exact H'|]. split; assumption.
+  - intros d b. exact (pio_indices_bits _ _ _ K d b).
+Qed.
+
+Lemma PIw_PIc d : PIw d -> PIc P cfg d.
+Proof. intros (H & _). exact H. Qed.
 End MP.
 
 Print Assumptions PIc_ok.
+Print Assumptions PIw_ok.
